@@ -18,3 +18,8 @@ CHECKS["C09"] = {
     "text": "every history up to the reported depth (window sizes 1..4/5, both ignore-current settings, sub-bucket/multi-bucket/multi-window gaps) is replayed on fresh real objects; after every step a reduction must see exactly the per-bucket sums/counts the reference computes; for the shedder every rejection must satisfy the two necessary conditions of the statement, and in-flight/smoothed in-flight/capacity estimate must equal the reference after every step",
     "note": "time is the instrumenter's virtual clock (timex rewritten); CPU reading injected through the package variable systemOverloadChecker; shedder rejection is checked as a necessary condition only (the statement has no liveness clause)",
 }
+CHECKS["C01"] = {
+    "technique": "explicit-state model checking: BFS over call/time-advance histories of the real breaker (virtual clock, the drop draw owned as an alphabet symbol) against a reference list of timestamped outcomes; preemption-bounded schedule search for concurrent callers; exhaustive enumeration of status/code/error classes through the real integrations",
+    "text": "every history of Do/DoWithAcceptable/DoWithFallback*/Allow+Accept/Reject/panic calls (direct and through the named registry, incl. NoBreakerFor), time advances of 125 ms..25 s and draw answers {0, 0.5, 1-2^-53} up to the reported depth is replayed on fresh real breakers; each call must be rejected iff drop>0 and draw<drop for drop=max(0,(total-5-1.5*accepts)/(total+1)) over the reference's trailing 40 buckets, rejected calls must not run the request, admitted calls must add exactly one outcome, and the breaker's own window must equal the reference after every step; the exact drop ratio is checked for 0..200 consecutive failures; all HTTP statuses / 17 gRPC codes / sql error classes are pushed through the real handler, interceptors and sqlx connection",
+    "note": "time and the PRNG are owned through the instrumenter (timex, math/rand source); redis.acceptable is exercised in the C12 check (needs miniredis); the probabilistic clause is replaced by the exact drop-ratio formula",
+}
